@@ -1,1 +1,638 @@
-From Verif Require Import Lib.Base Model.C07_Strategies.
+(* C07 lemmas, part 1: the three collection loops compute the declarative specification of
+   Model/C07_Spec.v, for every event list (induction over the list, one invariant per loop). *)
+From Verif Require Import Lib.Base Model.C07_Strategies Model.C07_Spec.
+From Coq Require Import ZifyBool ZifyN ZifyNat.
+Open Scope N_scope.
+
+(* ------------------------------------------------------------------------------------------- *)
+(* Event lists *)
+
+Section EventLemmas.
+  Context {V : Type}.
+  Implicit Types (es pre : list (event V)) (e : event V).
+
+  Lemma resps_app : forall es es', resps (es ++ es') = resps es ++ resps es'.
+  Proof.
+    induction es as [|e es IH]; intro es'; [reflexivity|].
+    destruct e; cbn [app resps]; rewrite IH; reflexivity.
+  Qed.
+
+  Lemma nresp_app : forall es es', nresp (es ++ es') = (nresp es + nresp es')%Z.
+  Proof. intros; unfold nresp; rewrite resps_app, app_length; lia. Qed.
+
+  Lemma nerr_app : forall es es', nerr (es ++ es') = (nerr es + nerr es')%Z.
+  Proof. intros; unfold nerr; rewrite filter_app, app_length; lia. Qed.
+
+  Lemma msgs_app : forall es es', msgs (es ++ es') = (msgs es + msgs es')%Z.
+  Proof. intros; unfold msgs; rewrite nresp_app, nerr_app; lia. Qed.
+
+  Lemma nresp_nonneg : forall es, (0 <= nresp es)%Z.
+  Proof. intros; unfold nresp; lia. Qed.
+  Lemma nerr_nonneg : forall es, (0 <= nerr es)%Z.
+  Proof. intros; unfold nerr; lia. Qed.
+
+  Lemma nresp_snoc : forall es e, nresp (es ++ [e]) = (nresp es + (if is_resp e then 1 else 0))%Z.
+  Proof. intros es e. rewrite nresp_app. unfold nresp. destruct e; reflexivity. Qed.
+  Lemma nerr_snoc : forall es e, nerr (es ++ [e]) = (nerr es + (if is_err e then 1 else 0))%Z.
+  Proof. intros es e. rewrite nerr_app. unfold nerr. destruct e; reflexivity. Qed.
+
+  Lemma nresp_zero_iff : forall es, nresp es = 0%Z <-> existsb is_resp es = false.
+  Proof.
+    induction es as [|e es IH]; [cbn; tauto|].
+    destruct e; cbn [existsb is_resp orb]; unfold nresp in *; cbn [resps length]; try exact IH.
+    split; [lia | discriminate].
+  Qed.
+
+  Lemma in_resps : forall es v, In v (resps es) <-> exists p, In (EResp p v) es.
+  Proof.
+    induction es as [|e es IH]; intro v.
+    - cbn; split; [tauto | intros [p []]].
+    - destruct e as [p w| | |]; cbn [resps In]; rewrite ?IH; split.
+      + intros [->|[q H]]; [exists p; left; reflexivity | exists q; right; exact H].
+      + intros [q [H|H]]; [injection H as _ ->; left; reflexivity | right; exists q; exact H].
+      + intros [q H]; exists q; right; exact H.
+      + intros [q [H|H]]; [discriminate | exists q; exact H].
+      + intros [q H]; exists q; right; exact H.
+      + intros [q [H|H]]; [discriminate | exists q; exact H].
+      + intros [q H]; exists q; right; exact H.
+      + intros [q [H|H]]; [discriminate | exists q; exact H].
+  Qed.
+
+  (* the first soft-timeout event decides *)
+  Lemma soft_resp_app : forall pre es seen,
+    soft_resp seen (pre ++ es) =
+    if existsb is_soft pre then soft_resp seen pre
+    else soft_resp (seen || existsb is_resp pre) es.
+  Proof.
+    induction pre as [|e pre IH]; intros es seen.
+    - cbn. rewrite orb_false_r. reflexivity.
+    - destruct e; cbn [app soft_resp existsb is_soft is_resp orb]; rewrite ?IH, ?orb_true_r; reflexivity.
+  Qed.
+
+  (* [soft_resp false] in words *)
+  Lemma soft_resp_spec : forall es,
+    soft_resp false es = true <->
+    exists p1 p2, es = p1 ++ ESoft :: p2 /\ existsb is_soft p1 = false /\ existsb is_resp p1 = true.
+  Proof.
+    assert (G : forall es seen,
+      soft_resp seen es = true <->
+      exists p1 p2, es = p1 ++ ESoft :: p2 /\ existsb is_soft p1 = false /\ (seen || existsb is_resp p1 = true)).
+    { induction es as [|e es IH]; intro seen.
+      - cbn. split; [discriminate | intros [p1 [p2 [H _]]]; destruct p1; discriminate].
+      - destruct e as [p w|p| |]; cbn [soft_resp].
+        + rewrite IH. split.
+          * intros [p1 [p2 [-> [H1 H2]]]]. exists (EResp p w :: p1), p2. cbn. rewrite orb_true_r. auto.
+          * intros [p1 [p2 [H [H1 H2]]]]. destruct p1 as [|x p1]; [discriminate|]. injection H as <- ->.
+            exists p1, p2. cbn in H1. auto.
+        + rewrite IH. split.
+          * intros [p1 [p2 [-> [H1 H2]]]]. exists (EErr p :: p1), p2. cbn. auto.
+          * intros [p1 [p2 [H [H1 H2]]]]. destruct p1 as [|x p1]; [discriminate|]. injection H as <- ->.
+            exists p1, p2. cbn in H1, H2. auto.
+        + split.
+          * intros ->. exists [], es. cbn. auto.
+          * intros [p1 [p2 [H [H1 H2]]]]. destruct p1 as [|x p1].
+            -- cbn in H2. rewrite orb_false_r in H2. exact H2.
+            -- injection H as <- ->. cbn in H1. discriminate.
+        + rewrite IH. split.
+          * intros [p1 [p2 [-> [H1 H2]]]]. exists (EHard :: p1), p2. cbn. auto.
+          * intros [p1 [p2 [H [H1 H2]]]]. destruct p1 as [|x p1]; [discriminate|]. injection H as <- ->.
+            exists p1, p2. cbn in H1, H2. auto. }
+    intro es. rewrite G. cbn. reflexivity.
+  Qed.
+End EventLemmas.
+
+(* ------------------------------------------------------------------------------------------- *)
+(* The consumed prefix *)
+
+Section ConsumedLemmas.
+  Context {E : Type} (stop : list E -> bool).
+
+  Lemma consumed_from_stop : forall es pre, stop pre = true -> consumed_from stop pre es = pre.
+  Proof. intros [|e es] pre H; cbn; [reflexivity | rewrite H; reflexivity]. Qed.
+
+  (* it is a prefix; no strictly shorter prefix stops; and it stops unless everything was consumed *)
+  Lemma consumed_from_spec : forall es pre,
+    exists c rest, consumed_from stop pre es = pre ++ c /\ es = c ++ rest
+                   /\ (forall c1 c2, c = c1 ++ c2 -> c2 <> [] -> stop (pre ++ c1) = false)
+                   /\ (stop (pre ++ c) = true \/ rest = []).
+  Proof.
+    induction es as [|e es IH]; intro pre.
+    - exists [], []. cbn. rewrite app_nil_r. repeat split; auto.
+      intros c1 c2 H Hn. destruct c1, c2; try discriminate. congruence.
+    - cbn [consumed_from]. destruct (stop pre) eqn:Es.
+      + exists [], (e :: es). rewrite app_nil_r. repeat split; auto.
+        intros c1 c2 H Hn. destruct c1, c2; try discriminate. congruence.
+      + destruct (IH (pre ++ [e])) as [c [rest [H1 [H2 [H3 H4]]]]].
+        exists (e :: c), rest. rewrite H1, <- app_assoc. cbn [app]. repeat split.
+        * rewrite H2; reflexivity.
+        * intros c1 c2 H Hn. destruct c1 as [|x c1].
+          -- rewrite app_nil_r. exact Es.
+          -- cbn in H. injection H as <- ->.
+             specialize (H3 c1 c2 eq_refl Hn). rewrite <- app_assoc in H3. exact H3.
+        * rewrite <- app_assoc in H4. exact H4.
+  Qed.
+
+  Lemma consumed_spec : forall es,
+    exists rest, es = consumed stop es ++ rest
+                 /\ (forall c1 c2, consumed stop es = c1 ++ c2 -> c2 <> [] -> stop c1 = false)
+                 /\ (stop (consumed stop es) = true \/ rest = []).
+  Proof.
+    intro es. destruct (consumed_from_spec es []) as [c [rest [H1 [H2 [H3 H4]]]]].
+    cbn [app] in *. unfold consumed. rewrite H1. exists rest. auto.
+  Qed.
+
+  (* a list on which no proper prefix stops is consumed whole *)
+  Lemma consumed_from_all : forall es pre,
+    (forall c1 c2, es = c1 ++ c2 -> c2 <> [] -> stop (pre ++ c1) = false) ->
+    consumed_from stop pre es = pre ++ es.
+  Proof.
+    induction es as [|e es IH]; intros pre H.
+    - cbn. rewrite app_nil_r. reflexivity.
+    - cbn [consumed_from]. rewrite <- (app_nil_r pre) at 1. rewrite (H [] (e :: es) eq_refl) by discriminate.
+      rewrite IH.
+      + rewrite <- app_assoc. reflexivity.
+      + intros c1 c2 -> Hn. rewrite <- app_assoc. apply (H (e :: c1) c2 eq_refl Hn).
+  Qed.
+
+  (* if a prefix stops and no shorter one does, it is the consumed prefix *)
+  Lemma consumed_unique : forall c rest,
+    stop c = true -> (forall c1 c2, c = c1 ++ c2 -> c2 <> [] -> stop c1 = false) ->
+    consumed stop (c ++ rest) = c.
+  Proof.
+    intros c rest Hs Hmin. unfold consumed.
+    assert (G : forall c2 c1, c = c1 ++ c2 -> consumed_from stop c1 (c2 ++ rest) = c).
+    { induction c2 as [|e c2 IH]; intros c1 Hc.
+      - rewrite app_nil_r in Hc. subst c1. cbn. apply consumed_from_stop. exact Hs.
+      - cbn [app consumed_from]. rewrite (Hmin c1 (e :: c2) Hc) by discriminate.
+        apply IH. rewrite <- app_assoc. exact Hc. }
+    apply (G c []). reflexivity.
+  Qed.
+End ConsumedLemmas.
+
+(* ------------------------------------------------------------------------------------------- *)
+(* Template 1 (bstep): refinement *)
+
+Section BRefine.
+  Context {V A : Type}.
+  Variable acc : A -> V -> A.
+  Variable early : A -> bool.
+  Variable requests : Z.
+  Hypothesis req_nonneg : (0 <= requests)%Z.
+  Variable a0 : A.
+
+  Notation bstep := (bstep acc early requests).
+  Notation b_settle := (b_settle early requests).
+  Notation stop := (b_stop acc early requests a0).
+
+  Lemma bstep_done : forall s e, b_phase s = Done -> bstep s e = s.
+  Proof. intros s e H. unfold C07_Strategies.bstep. rewrite H. reflexivity. Qed.
+
+  Lemma brun_done : forall es s, b_phase s = Done -> fold_left bstep es s = s.
+  Proof. induction es as [|e es IH]; intros s H; cbn; [reflexivity | rewrite bstep_done by exact H; apply IH; exact H]. Qed.
+
+  (* a loop still running after having consumed [pre] *)
+  Definition live (pre : list (event V)) (s : bst) : Prop :=
+    stop pre = false /\ b_phase s <> Done /\ b_acc s = accf acc a0 pre
+    /\ b_resp s = nresp pre /\ b_err s = nerr pre /\ b_to s = 0%Z
+    /\ (b_phase s = L1 -> existsb is_soft pre = false /\ b_soft s = 0%Z)
+    /\ (b_phase s = L2 -> existsb is_soft pre = true).
+
+  Lemma stop_false : forall pre, stop pre = false ->
+    (msgs pre < requests)%Z /\ early (accf acc a0 pre) = false /\ existsb is_hard pre = false /\ soft_resp false pre = false.
+  Proof.
+    intros pre H. unfold b_stop in H.
+    apply orb_false_iff in H as [H H4]. apply orb_false_iff in H as [H H3]. apply orb_false_iff in H as [H1 H2].
+    repeat split; auto. lia.
+  Qed.
+
+  Lemma accf_snoc_resp : forall pre p v, accf acc a0 (pre ++ [EResp p v]) = acc (accf acc a0 pre) v.
+  Proof. intros. unfold accf. rewrite resps_app, fold_left_app. reflexivity. Qed.
+  Lemma accf_snoc_other : forall pre e, is_resp e = false -> accf acc a0 (pre ++ [e]) = accf acc a0 pre.
+  Proof. intros pre e H. unfold accf. rewrite resps_app. destruct e; try discriminate; cbn; rewrite app_nil_r; reflexivity. Qed.
+
+  Lemma bstep_live : forall pre s e, live pre s ->
+    (stop (pre ++ [e]) = false /\ live (pre ++ [e]) (bstep s e))
+    \/ (stop (pre ++ [e]) = true /\ b_phase (bstep s e) = Done /\ b_acc (bstep s e) = accf acc a0 (pre ++ [e])).
+  Proof.
+    intros pre s e (Hstop & Hph & Hacc & Hr & He & Hto & H1 & H2).
+    destruct (stop_false pre Hstop) as (Hm & Hea & Hh & Hsr).
+    pose proof (nresp_nonneg pre) as Hrn. pose proof (nerr_nonneg pre) as Hen.
+    unfold msgs in Hm.
+    destruct s as [r er to so a ph]. cbn [b_phase b_acc b_resp b_err b_to b_soft] in *. subst r er to a.
+    destruct ph; [| |congruence].
+    - (* loop 1 *)
+      destruct (H1 eq_refl) as [Hns ->]. clear H1 H2.
+      destruct e as [p v|p| |].
+      + (* response *)
+        assert (Es : stop (pre ++ [EResp p v]) =
+                     ((requests <=? nresp pre + 1 + nerr pre)%Z || early (acc (accf acc a0 pre) v))).
+        { unfold b_stop. rewrite accf_snoc_resp, existsb_app, Hh, soft_resp_app, Hns. cbn [existsb is_hard soft_resp orb].
+          unfold msgs. rewrite nresp_snoc, nerr_snoc. cbn [is_resp is_err].
+          rewrite !orb_false_r. f_equal. f_equal. lia. }
+        unfold C07_Strategies.bstep, C07_Strategies.b_settle, b_cond1, b_cond2, b_on_resp, b_set_phase.
+        cbn [b_phase b_acc b_resp b_err b_to b_soft].
+        destruct (early (acc (accf acc a0 pre) v)) eqn:Ee; rewrite ?andb_false_r, ?andb_true_r.
+        * right. rewrite Es, orb_true_r. cbn. rewrite accf_snoc_resp. auto.
+        * rewrite orb_false_r in Es.
+          destruct (Z.eqb_spec (nresp pre + 1 + nerr pre + 0 + 0) requests) as [Q|Q]; cbn [negb].
+          -- destruct (Z.eqb_spec (nresp pre + 1 + nerr pre + 0) requests) as [Q'|Q']; [|lia]. cbn [negb].
+             right. rewrite Es. cbn. rewrite accf_snoc_resp. repeat split; auto. lia.
+          -- left. assert (Es' : stop (pre ++ [EResp p v]) = false) by (rewrite Es; lia).
+             split; [exact Es'|]. unfold live. cbn [b_phase b_acc b_resp b_err b_to b_soft].
+             rewrite accf_snoc_resp, nresp_snoc, nerr_snoc, existsb_app, Hns. cbn.
+             repeat split; auto; try lia; try discriminate.
+      + (* error *)
+        assert (Es : stop (pre ++ [EErr p]) = (requests <=? nresp pre + nerr pre + 1)%Z).
+        { unfold b_stop. rewrite accf_snoc_other by reflexivity. rewrite Hea, existsb_app, Hh, soft_resp_app, Hns.
+          cbn [existsb is_hard soft_resp orb]. unfold msgs. rewrite nresp_snoc, nerr_snoc.
+          cbn [is_resp is_err]. rewrite !orb_false_r. f_equal. lia. }
+        unfold C07_Strategies.bstep, C07_Strategies.b_settle, b_cond1, b_cond2, b_on_err, b_set_phase.
+        cbn [b_phase b_acc b_resp b_err b_to b_soft]. rewrite Hea. rewrite ?andb_true_r.
+        destruct (Z.eqb_spec (nresp pre + (nerr pre + 1) + 0 + 0) requests) as [Q|Q]; cbn [negb].
+        * destruct (Z.eqb_spec (nresp pre + (nerr pre + 1) + 0) requests) as [Q'|Q']; [|lia]. cbn [negb].
+          right. rewrite Es. cbn. rewrite accf_snoc_other by reflexivity. repeat split; auto. lia.
+        * left. assert (Es' : stop (pre ++ [EErr p]) = false) by (rewrite Es; lia).
+          split; [exact Es'|]. unfold live. cbn [b_phase b_acc b_resp b_err b_to b_soft].
+          rewrite accf_snoc_other by reflexivity. rewrite nresp_snoc, nerr_snoc, existsb_app, Hns. cbn.
+          repeat split; auto; try lia; try discriminate.
+      + (* soft timeout *)
+        assert (Es : stop (pre ++ [ESoft]) = negb (nresp pre =? 0)%Z).
+        { unfold b_stop. rewrite accf_snoc_other by reflexivity. rewrite Hea, existsb_app, Hh, soft_resp_app, Hns.
+          cbn [existsb is_hard soft_resp orb]. unfold msgs. rewrite nresp_snoc, nerr_snoc.
+          cbn [is_resp is_err].
+          replace (requests <=? nresp pre + 0 + (nerr pre + 0))%Z with false by lia. cbn [orb].
+          destruct (existsb is_resp pre) eqn:Er.
+          - destruct (Z.eqb_spec (nresp pre) 0) as [Q|Q]; [apply nresp_zero_iff in Q; congruence | reflexivity].
+          - apply nresp_zero_iff in Er. rewrite Er. reflexivity. }
+        unfold C07_Strategies.bstep, C07_Strategies.b_settle, b_cond1, b_cond2, b_on_soft, b_set_phase.
+        cbn [b_phase b_acc b_resp b_err b_to b_soft]. rewrite Hea, ?andb_true_r.
+        destruct (Z.ltb_spec 0 (nresp pre)) as [Q|Q].
+        * match goal with |- context [negb (?x =? requests)%Z] => replace (x =? requests)%Z with true by lia end.
+          cbn [negb].
+          match goal with |- context [negb (?x =? requests)%Z] => replace (x =? requests)%Z with true by lia end.
+          cbn [negb]. right. rewrite Es. cbn. rewrite accf_snoc_other by reflexivity. repeat split; auto. lia.
+        * match goal with |- context [negb (?x =? requests)%Z] => replace (x =? requests)%Z with true by lia end.
+          cbn [negb].
+          match goal with |- context [negb (?x =? requests)%Z] => replace (x =? requests)%Z with false by lia end.
+          cbn [negb]. left. assert (Es' : stop (pre ++ [ESoft]) = false) by (rewrite Es; lia).
+          split; [exact Es'|]. unfold live. cbn [b_phase b_acc b_resp b_err b_to b_soft].
+          rewrite accf_snoc_other by reflexivity. rewrite nresp_snoc, nerr_snoc, existsb_app. cbn. rewrite orb_true_r.
+          repeat split; auto; try lia; try discriminate.
+      + (* hard timeout while in loop 1 *)
+        right. split.
+        { unfold b_stop. rewrite existsb_app. cbn. rewrite !orb_true_r. reflexivity. }
+        rewrite accf_snoc_other by reflexivity.
+        unfold C07_Strategies.bstep, C07_Strategies.b_settle, b_cond1, b_cond2, b_on_soft, b_on_hard, b_set_phase.
+        cbn [b_phase b_acc b_resp b_err b_to b_soft]. rewrite Hea, ?andb_true_r.
+        destruct (Z.ltb_spec 0 (nresp pre)) as [Q|Q].
+        * match goal with |- context [negb (?x =? requests)%Z] => replace (x =? requests)%Z with true by lia end.
+          cbn [negb].
+          match goal with |- context [negb (?x =? requests)%Z] => replace (x =? requests)%Z with true by lia end.
+          cbn. auto.
+        * match goal with |- context [negb (?x =? requests)%Z] => replace (x =? requests)%Z with true by lia end.
+          cbn [negb].
+          match goal with |- context [negb (?x =? requests)%Z] => replace (x =? requests)%Z with false by lia end.
+          cbn [negb b_phase b_acc b_resp b_err b_to b_soft]. rewrite Hea, ?andb_true_r.
+          match goal with |- context [negb (?x =? requests)%Z] => replace (x =? requests)%Z with true by lia end.
+          cbn. auto.
+    - (* loop 2 *)
+      specialize (H2 eq_refl). clear H1.
+      destruct e as [p v|p| |].
+      + assert (Es : stop (pre ++ [EResp p v]) =
+                     ((requests <=? nresp pre + 1 + nerr pre)%Z || early (acc (accf acc a0 pre) v))).
+        { unfold b_stop. rewrite accf_snoc_resp, existsb_app, Hh, soft_resp_app, H2, Hsr. cbn [existsb is_hard orb].
+          unfold msgs. rewrite nresp_snoc, nerr_snoc. cbn [is_resp is_err].
+          rewrite !orb_false_r. f_equal. f_equal. lia. }
+        unfold C07_Strategies.bstep, C07_Strategies.b_settle, b_cond1, b_cond2, b_on_resp, b_set_phase.
+        cbn [b_phase b_acc b_resp b_err b_to b_soft].
+        destruct (early (acc (accf acc a0 pre) v)) eqn:Ee; rewrite ?andb_false_r, ?andb_true_r.
+        * right. rewrite Es, orb_true_r. cbn. rewrite accf_snoc_resp. auto.
+        * rewrite orb_false_r in Es.
+          destruct (Z.eqb_spec (nresp pre + 1 + nerr pre + 0) requests) as [Q|Q]; cbn [negb].
+          -- right. rewrite Es. cbn. rewrite accf_snoc_resp. repeat split; auto. lia.
+          -- left. assert (Es' : stop (pre ++ [EResp p v]) = false) by (rewrite Es; lia).
+             split; [exact Es'|]. unfold live. cbn [b_phase b_acc b_resp b_err b_to b_soft].
+             rewrite accf_snoc_resp, nresp_snoc, nerr_snoc, existsb_app, H2. cbn.
+             repeat split; auto; try lia; try discriminate.
+      + assert (Es : stop (pre ++ [EErr p]) = (requests <=? nresp pre + nerr pre + 1)%Z).
+        { unfold b_stop. rewrite accf_snoc_other by reflexivity. rewrite Hea, existsb_app, Hh, soft_resp_app, H2, Hsr.
+          cbn [existsb is_hard orb]. unfold msgs. rewrite nresp_snoc, nerr_snoc.
+          cbn [is_resp is_err]. rewrite !orb_false_r. f_equal. lia. }
+        unfold C07_Strategies.bstep, C07_Strategies.b_settle, b_cond1, b_cond2, b_on_err, b_set_phase.
+        cbn [b_phase b_acc b_resp b_err b_to b_soft]. rewrite Hea. rewrite ?andb_true_r.
+        destruct (Z.eqb_spec (nresp pre + (nerr pre + 1) + 0) requests) as [Q|Q]; cbn [negb].
+        * right. rewrite Es. cbn. rewrite accf_snoc_other by reflexivity. repeat split; auto. lia.
+        * left. assert (Es' : stop (pre ++ [EErr p]) = false) by (rewrite Es; lia).
+          split; [exact Es'|]. unfold live. cbn [b_phase b_acc b_resp b_err b_to b_soft].
+          rewrite accf_snoc_other by reflexivity. rewrite nresp_snoc, nerr_snoc, existsb_app, H2. cbn.
+          repeat split; auto; try lia; try discriminate.
+      + (* a soft-timeout event in loop 2 is not looked at *)
+        left.
+        assert (Es' : stop (pre ++ [ESoft]) = false).
+        { unfold b_stop. rewrite accf_snoc_other by reflexivity. rewrite Hea, existsb_app, Hh, soft_resp_app, H2, Hsr.
+          cbn [existsb is_hard orb]. unfold msgs. rewrite nresp_snoc, nerr_snoc.
+          cbn [is_resp is_err]. lia. }
+        split; [exact Es'|]. unfold C07_Strategies.bstep. cbn [b_phase].
+        unfold live. cbn [b_phase b_acc b_resp b_err b_to b_soft].
+        rewrite accf_snoc_other by reflexivity. rewrite nresp_snoc, nerr_snoc, existsb_app, H2. cbn.
+        repeat split; auto; try lia; try discriminate.
+      + right. split.
+        { unfold b_stop. rewrite existsb_app. cbn. rewrite !orb_true_r. reflexivity. }
+        rewrite accf_snoc_other by reflexivity.
+        unfold C07_Strategies.bstep, C07_Strategies.b_settle, b_cond1, b_cond2, b_on_hard, b_set_phase.
+        cbn [b_phase b_acc b_resp b_err b_to b_soft].
+        match goal with |- context [negb (?x =? requests)%Z] => replace (x =? requests)%Z with true by lia end.
+        cbn. auto.
+  Qed.
+
+  Lemma b_run_consumed : forall es pre s, live pre s ->
+    let c := consumed_from stop pre es in
+    b_acc (fold_left bstep es s) = accf acc a0 c
+    /\ (b_phase (fold_left bstep es s) = Done <-> stop c = true).
+  Proof.
+    induction es as [|e es IH]; intros pre s Hl.
+    - cbn. destruct Hl as (Hs & Hp & Ha & _). split; [exact Ha|]. rewrite Hs. split; [congruence | discriminate].
+    - cbn [consumed_from fold_left]. destruct Hl as (Hs & Hl'). rewrite Hs.
+      destruct (bstep_live pre s e (conj Hs Hl')) as [[Hs' Hl2] | (Hs' & Hp & Ha)].
+      + apply IH. exact Hl2.
+      + rewrite brun_done by exact Hp. rewrite consumed_from_stop by exact Hs'.
+        split; [exact Ha|]. rewrite Hs', Hp. tauto.
+  Qed.
+
+  Lemma b_init_cases :
+    (stop [] = false /\ live [] (b_init early requests a0))
+    \/ (stop [] = true /\ b_phase (b_init early requests a0) = Done /\ b_acc (b_init early requests a0) = a0).
+  Proof.
+    unfold b_init, C07_Strategies.b_settle, b_cond1, b_cond2, b_set_phase, b_stop, accf, msgs, nresp, nerr.
+    cbn [b_phase b_acc b_resp b_err b_to b_soft resps filter length fold_left existsb soft_resp].
+    rewrite !orb_false_r. change (Z.of_nat 0 + Z.of_nat 0)%Z with 0%Z. cbn [Z.add].
+    destruct (early a0) eqn:Ee; rewrite ?andb_false_r, ?andb_true_r, ?orb_true_r, ?orb_false_r.
+    - right. cbn. auto.
+    - destruct (Z.eqb_spec 0 requests) as [Q|Q]; cbn [negb].
+      + right. cbn. repeat split; auto. lia.
+      + left. assert (Hq : (requests <=? 0)%Z = false) by lia. split; [exact Hq|].
+        unfold live, b_stop, accf, msgs, nresp, nerr.
+        cbn [b_phase b_acc b_resp b_err b_to b_soft resps filter length fold_left existsb soft_resp].
+        rewrite Ee. cbn. repeat split; auto; try discriminate. lia.
+  Qed.
+
+  (* THE REFINEMENT: the loop consumes exactly the shortest prefix on which [b_stop] holds, its
+     accumulator is the fold over the responses of that prefix, and it has ended iff that prefix
+     stops *)
+  Theorem b_refines : forall es,
+    let c := consumed stop es in
+    b_acc (brun acc early requests a0 es) = accf acc a0 c
+    /\ (b_phase (brun acc early requests a0 es) = Done <-> stop c = true).
+  Proof.
+    intro es. unfold brun, consumed.
+    destruct b_init_cases as [[Hs Hl] | (Hs & Hp & Ha)].
+    - apply b_run_consumed. exact Hl.
+    - rewrite brun_done by exact Hp. rewrite consumed_from_stop by exact Hs.
+      split; [exact Ha|]. rewrite Hs, Hp. tauto.
+  Qed.
+
+  (* once the hard-timeout event has been consumed the loop is over, and nothing after it is
+     looked at *)
+  Lemma b_hard_done : forall es1 es2,
+    b_phase (brun acc early requests a0 (es1 ++ EHard :: es2)) = Done
+    /\ brun acc early requests a0 (es1 ++ EHard :: es2) = brun acc early requests a0 (es1 ++ [EHard]).
+  Proof.
+    intros es1 es2.
+    assert (Hd : b_phase (brun acc early requests a0 (es1 ++ [EHard])) = Done).
+    { apply b_refines. destruct (consumed_spec stop (es1 ++ [EHard])) as [rest [H1 [_ [H3|H3]]]]; [exact H3|].
+      subst rest. rewrite app_nil_r in H1. rewrite <- H1. unfold b_stop. rewrite existsb_app. cbn.
+      rewrite !orb_true_r. reflexivity. }
+    replace (es1 ++ EHard :: es2) with ((es1 ++ [EHard]) ++ es2) by (rewrite <- app_assoc; reflexivity).
+    unfold brun in *. rewrite fold_left_app. rewrite brun_done by exact Hd. auto.
+  Qed.
+End BRefine.
+
+(* ------------------------------------------------------------------------------------------- *)
+(* Template 2 (mstep): refinement.  The soft timeout plays no part. *)
+
+Section MRefine.
+  Context {V A : Type}.
+  Variable acc : A -> V -> A.
+  Variable early : A -> bool.
+  Variable requests : Z.
+  Hypothesis req_nonneg : (0 <= requests)%Z.
+  Variable a0 : A.
+
+  Notation mstep := (mstep acc early requests).
+  Notation stop := (m_stop acc early requests a0).
+
+  Lemma mstep_done : forall s e, m_phase s = Done -> mstep s e = s.
+  Proof. intros s e H. unfold C07_Strategies.mstep. rewrite H. reflexivity. Qed.
+
+  Lemma mrun_done : forall es s, m_phase s = Done -> fold_left mstep es s = s.
+  Proof. induction es as [|e es IH]; intros s H; cbn; [reflexivity | rewrite mstep_done by exact H; apply IH; exact H]. Qed.
+
+  Definition mlive (pre : list (event V)) (s : mst) : Prop :=
+    stop pre = false /\ m_phase s <> Done /\ m_acc s = accf acc a0 pre
+    /\ m_resp s = nresp pre /\ m_err s = nerr pre.
+
+  Lemma m_stop_false : forall pre, stop pre = false ->
+    (msgs pre < requests)%Z /\ early (accf acc a0 pre) = false /\ existsb is_hard pre = false.
+  Proof.
+    intros pre H. unfold m_stop in H.
+    apply orb_false_iff in H as [H H3]. apply orb_false_iff in H as [H1 H2].
+    repeat split; auto. lia.
+  Qed.
+
+  Lemma mstep_live : forall pre s e, mlive pre s ->
+    (stop (pre ++ [e]) = false /\ mlive (pre ++ [e]) (mstep s e))
+    \/ (stop (pre ++ [e]) = true /\ m_phase (mstep s e) = Done /\ m_acc (mstep s e) = accf acc a0 (pre ++ [e])).
+  Proof.
+    intros pre s e (Hstop & Hph & Hacc & Hr & He).
+    destruct (m_stop_false pre Hstop) as (Hm & Hea & Hh).
+    pose proof (nresp_nonneg pre) as Hrn. pose proof (nerr_nonneg pre) as Hen.
+    unfold msgs in Hm.
+    destruct s as [r er a ph]. cbn [m_phase m_acc m_resp m_err] in *. subst r er a.
+    assert (Hstep : forall ph', ph' <> Done ->
+      (forall p v, let s' := m_settle early requests (mk_mst (nresp pre + 1) (nerr pre) (acc (accf acc a0 pre) v) ph') in
+         (stop (pre ++ [EResp p v]) = false /\ mlive (pre ++ [EResp p v]) s')
+         \/ (stop (pre ++ [EResp p v]) = true /\ m_phase s' = Done /\ m_acc s' = accf acc a0 (pre ++ [EResp p v])))
+      /\ (forall p, let s' := m_settle early requests (mk_mst (nresp pre) (nerr pre + 1) (accf acc a0 pre) ph') in
+         (stop (pre ++ [EErr p]) = false /\ mlive (pre ++ [EErr p]) s')
+         \/ (stop (pre ++ [EErr p]) = true /\ m_phase s' = Done /\ m_acc s' = accf acc a0 (pre ++ [EErr p])))).
+    { intros ph' Hph'. split.
+      - intros p v s'. subst s'.
+        assert (Es : stop (pre ++ [EResp p v]) =
+                     ((requests <=? nresp pre + 1 + nerr pre)%Z || early (acc (accf acc a0 pre) v))).
+        { unfold m_stop. rewrite (accf_snoc_resp acc a0), existsb_app, Hh. cbn [existsb is_hard orb].
+          unfold msgs. rewrite nresp_snoc, nerr_snoc. cbn [is_resp is_err].
+          rewrite !orb_false_r. f_equal. f_equal. lia. }
+        unfold m_settle, m_cond. cbn [m_phase m_acc m_resp m_err].
+        destruct (early (acc (accf acc a0 pre) v)) eqn:Ee; rewrite ?andb_false_r, ?andb_true_r.
+        + right. rewrite Es, orb_true_r. rewrite (accf_snoc_resp acc a0). destruct ph'; cbn; auto; congruence.
+        + rewrite orb_false_r in Es.
+          destruct (Z.eqb_spec (nresp pre + 1 + nerr pre) requests) as [Q|Q]; cbn [negb].
+          * right. rewrite Es. rewrite (accf_snoc_resp acc a0). destruct ph'; cbn; repeat split; auto; try lia; congruence.
+          * left. assert (Es' : stop (pre ++ [EResp p v]) = false) by (rewrite Es; lia).
+            split; [exact Es'|]. unfold mlive.
+            rewrite (accf_snoc_resp acc a0), nresp_snoc, nerr_snoc. cbn [is_resp is_err].
+            destruct ph'; cbn [m_phase m_acc m_resp m_err]; repeat split; auto; try lia; try discriminate; congruence.
+      - intros p s'. subst s'.
+        assert (Es : stop (pre ++ [EErr p]) = (requests <=? nresp pre + nerr pre + 1)%Z).
+        { unfold m_stop. rewrite (accf_snoc_other acc a0) by reflexivity. rewrite Hea, existsb_app, Hh.
+          cbn [existsb is_hard orb]. unfold msgs. rewrite nresp_snoc, nerr_snoc. cbn [is_resp is_err].
+          rewrite !orb_false_r. f_equal. lia. }
+        unfold m_settle, m_cond. cbn [m_phase m_acc m_resp m_err]. rewrite Hea, ?andb_true_r.
+        destruct (Z.eqb_spec (nresp pre + (nerr pre + 1)) requests) as [Q|Q]; cbn [negb].
+        + right. rewrite Es. rewrite (accf_snoc_other acc a0) by reflexivity.
+          destruct ph'; cbn; repeat split; auto; try lia; congruence.
+        + left. assert (Es' : stop (pre ++ [EErr p]) = false) by (rewrite Es; lia).
+          split; [exact Es'|]. unfold mlive.
+          rewrite (accf_snoc_other acc a0) by reflexivity. rewrite nresp_snoc, nerr_snoc. cbn [is_resp is_err].
+          destruct ph'; cbn [m_phase m_acc m_resp m_err]; repeat split; auto; try lia; try discriminate; congruence. }
+    assert (Hsoft : stop (pre ++ [ESoft]) = false).
+    { unfold m_stop. rewrite (accf_snoc_other acc a0) by reflexivity. rewrite Hea, existsb_app, Hh.
+      cbn [existsb is_hard orb]. unfold msgs. rewrite nresp_snoc, nerr_snoc. cbn [is_resp is_err]. lia. }
+    assert (Hhard : stop (pre ++ [EHard]) = true).
+    { unfold m_stop. rewrite existsb_app. cbn. rewrite !orb_true_r. reflexivity. }
+    destruct ph; [| |congruence].
+    - destruct (Hstep L1 ltac:(discriminate)) as [HR HE].
+      destruct e as [p v|p| |]; unfold C07_Strategies.mstep; cbn [m_phase m_acc m_resp m_err].
+      + apply HR.
+      + apply HE.
+      + left. split; [exact Hsoft|].
+        unfold m_settle, m_cond. cbn [m_phase m_acc m_resp m_err]. rewrite Hea, andb_true_r.
+        replace (nresp pre + nerr pre =? requests)%Z with false by lia. cbn [negb].
+        unfold mlive. rewrite (accf_snoc_other acc a0) by reflexivity. rewrite nresp_snoc, nerr_snoc.
+        cbn [m_phase m_acc m_resp m_err is_resp is_err]. repeat split; auto; try lia; discriminate.
+      + right. rewrite (accf_snoc_other acc a0) by reflexivity. auto.
+    - destruct (Hstep L2 ltac:(discriminate)) as [HR HE].
+      destruct e as [p v|p| |]; unfold C07_Strategies.mstep; cbn [m_phase m_acc m_resp m_err].
+      + apply HR.
+      + apply HE.
+      + left. split; [exact Hsoft|].
+        unfold mlive. rewrite (accf_snoc_other acc a0) by reflexivity. rewrite nresp_snoc, nerr_snoc.
+        cbn [m_phase m_acc m_resp m_err is_resp is_err]. repeat split; auto; try lia; discriminate.
+      + right. rewrite (accf_snoc_other acc a0) by reflexivity. auto.
+  Qed.
+
+  Lemma m_run_consumed : forall es pre s, mlive pre s ->
+    let c := consumed_from stop pre es in
+    m_acc (fold_left mstep es s) = accf acc a0 c
+    /\ (m_phase (fold_left mstep es s) = Done <-> stop c = true).
+  Proof.
+    induction es as [|e es IH]; intros pre s Hl.
+    - cbn. destruct Hl as (Hs & Hp & Ha & _). split; [exact Ha|]. rewrite Hs. split; [congruence | discriminate].
+    - cbn [consumed_from fold_left]. destruct Hl as (Hs & Hl'). rewrite Hs.
+      destruct (mstep_live pre s e (conj Hs Hl')) as [[Hs' Hl2] | (Hs' & Hp & Ha)].
+      + apply IH. exact Hl2.
+      + rewrite mrun_done by exact Hp. rewrite consumed_from_stop by exact Hs'.
+        split; [exact Ha|]. rewrite Hs', Hp. tauto.
+  Qed.
+
+  Lemma m_init_cases :
+    (stop [] = false /\ mlive [] (m_init early requests a0))
+    \/ (stop [] = true /\ m_phase (m_init early requests a0) = Done /\ m_acc (m_init early requests a0) = a0).
+  Proof.
+    unfold m_init, m_settle, m_cond, m_stop, accf, msgs, nresp, nerr.
+    cbn [m_phase m_acc m_resp m_err resps filter length fold_left existsb].
+    rewrite !orb_false_r. change (Z.of_nat 0 + Z.of_nat 0)%Z with 0%Z. cbn [Z.add].
+    destruct (early a0) eqn:Ee; rewrite ?andb_false_r, ?andb_true_r, ?orb_true_r, ?orb_false_r.
+    - right. cbn. auto.
+    - destruct (Z.eqb_spec 0 requests) as [Q|Q]; cbn [negb].
+      + right. cbn. repeat split; auto. lia.
+      + left. assert (Hq : (requests <=? 0)%Z = false) by lia. split; [exact Hq|].
+        unfold mlive, m_stop, accf, msgs, nresp, nerr.
+        cbn [m_phase m_acc m_resp m_err resps filter length fold_left existsb].
+        rewrite Ee. cbn. repeat split; auto; try discriminate. lia.
+  Qed.
+
+  Theorem m_refines : forall es,
+    let c := consumed stop es in
+    m_acc (mrun acc early requests a0 es) = accf acc a0 c
+    /\ (m_phase (mrun acc early requests a0 es) = Done <-> stop c = true).
+  Proof.
+    intro es. unfold mrun, consumed.
+    destruct m_init_cases as [[Hs Hl] | (Hs & Hp & Ha)].
+    - apply m_run_consumed. exact Hl.
+    - rewrite mrun_done by exact Hp. rewrite consumed_from_stop by exact Hs.
+      split; [exact Ha|]. rewrite Hs, Hp. tauto.
+  Qed.
+
+  Lemma m_hard_done : forall es1 es2,
+    m_phase (mrun acc early requests a0 (es1 ++ EHard :: es2)) = Done
+    /\ mrun acc early requests a0 (es1 ++ EHard :: es2) = mrun acc early requests a0 (es1 ++ [EHard]).
+  Proof.
+    intros es1 es2.
+    assert (Hd : m_phase (mrun acc early requests a0 (es1 ++ [EHard])) = Done).
+    { apply m_refines. destruct (consumed_spec stop (es1 ++ [EHard])) as [rest [H1 [_ [H3|H3]]]]; [exact H3|].
+      subst rest. rewrite app_nil_r in H1. rewrite <- H1. unfold m_stop. rewrite existsb_app. cbn.
+      rewrite !orb_true_r. reflexivity. }
+    replace (es1 ++ EHard :: es2) with ((es1 ++ [EHard]) ++ es2) by (rewrite <- app_assoc; reflexivity).
+    unfold mrun in *. rewrite fold_left_app. rewrite mrun_done by exact Hd. auto.
+  Qed.
+End MRefine.
+
+(* ------------------------------------------------------------------------------------------- *)
+(* Template 3 (fstep) *)
+
+Section FRefine.
+  Context {V : Type}.
+  Implicit Types (es : list (event V)).
+
+  Lemma frun_done : forall es (r : option V), fold_left fstep es (FDone r) = FDone r.
+  Proof. induction es as [|e es IH]; intro r; cbn; [reflexivity | apply IH]. Qed.
+
+  Lemma frun_wait : forall es, existsb is_resp es = false -> existsb is_hard es = false ->
+    fold_left fstep es (@FWait V) = FWait.
+  Proof.
+    induction es as [|e es IH]; intros H1 H2; [reflexivity|].
+    destruct e; cbn in *; try discriminate; apply IH; assumption.
+  Qed.
+
+  Lemma frun_cases : forall es,
+    match frun es with
+    | FWait => existsb is_resp es = false /\ existsb is_hard es = false
+    | FDone (Some v) => exists es1 p es2, es = es1 ++ EResp p v :: es2
+                                          /\ existsb is_resp es1 = false /\ existsb is_hard es1 = false
+    | FDone None => exists es1 es2, es = es1 ++ EHard :: es2
+                                    /\ existsb is_resp es1 = false /\ existsb is_hard es1 = false
+    end.
+  Proof.
+    unfold frun. induction es as [|e es IH]; [cbn; auto|].
+    destruct e as [p v|p| |]; cbn [fold_left fstep].
+    - rewrite frun_done. exists [], p, es. auto.
+    - destruct (fold_left fstep es FWait) as [|[w|]].
+      + cbn. exact IH.
+      + destruct IH as [es1 [q [es2 [-> [H1 H2]]]]]. exists (EErr p :: es1), q, es2. cbn. auto.
+      + destruct IH as [es1 [es2 [-> [H1 H2]]]]. exists (EErr p :: es1), es2. cbn. auto.
+    - destruct (fold_left fstep es FWait) as [|[w|]].
+      + cbn. exact IH.
+      + destruct IH as [es1 [q [es2 [-> [H1 H2]]]]]. exists (ESoft :: es1), q, es2. cbn. auto.
+      + destruct IH as [es1 [es2 [-> [H1 H2]]]]. exists (ESoft :: es1), es2. cbn. auto.
+    - rewrite frun_done. exists [], es. auto.
+  Qed.
+
+  Lemma frun_some_iff : forall es v,
+    frun es = FDone (Some v) <->
+    exists es1 p es2, es = es1 ++ EResp p v :: es2 /\ existsb is_resp es1 = false /\ existsb is_hard es1 = false.
+  Proof.
+    intros es v. split.
+    - intro H. pose proof (frun_cases es) as C. rewrite H in C. exact C.
+    - intros [es1 [p [es2 [-> [H1 H2]]]]]. unfold frun. rewrite fold_left_app, frun_wait by assumption.
+      cbn. apply frun_done.
+  Qed.
+
+  Lemma frun_none_iff : forall es,
+    frun es = FDone None <->
+    exists es1 es2, es = es1 ++ EHard :: es2 /\ existsb is_resp es1 = false /\ existsb is_hard es1 = false.
+  Proof.
+    intros es. split.
+    - intro H. pose proof (frun_cases es) as C. rewrite H in C. exact C.
+    - intros [es1 [es2 [-> [H1 H2]]]]. unfold frun. rewrite fold_left_app, frun_wait by assumption.
+      cbn. apply frun_done.
+  Qed.
+
+  Lemma frun_wait_iff : forall es,
+    frun es = FWait <-> existsb is_resp es = false /\ existsb is_hard es = false.
+  Proof.
+    intros es. split.
+    - intro H. pose proof (frun_cases es) as C. rewrite H in C. exact C.
+    - intros [H1 H2]. apply frun_wait; assumption.
+  Qed.
+End FRefine.
